@@ -128,14 +128,11 @@ def run(ctx):
     okh = False
     if oserr:
         h = oserr[0]
-        skips = set()
-        for st in ast.walk(h):
-            if isinstance(st, ast.If):
-                t = norm_stmt(st.test).replace(" ", "")
-                if any(isinstance(x, ast.Continue) for x in st.body):
-                    skips.add(t)
-        reraise = isinstance(h.body[-1], ast.Raise) and h.body[-1].exc is None
-        okh = skips == {"err.errno==errno.EINVAL", "err.errno==errno.ENAMETOOLONG"} and reraise
+        evar = h.name or "err"
+        outcome = {code: _handler_outcome(h.body, evar, code)
+                   for code in ("EINVAL", "ENAMETOOLONG", "EACCES", "EIO", "EMFILE", "ELOOP")}
+        okh = outcome == {"EINVAL": "skip", "ENAMETOOLONG": "skip", "EACCES": "raise",
+                          "EIO": "raise", "EMFILE": "raise", "ELOOP": "raise"}
     if okh:
         ctx.ok("C14.R3", "errno-policy", sample="EINVAL / ENAMETOOLONG -> skip; else re-raise")
         ctx.ok("C14.R3", "handler-order", nontrivial=False)
@@ -250,3 +247,57 @@ def run(ctx):
             "policy by handler inventory.",
             "exhaustiveness over a finite domain, abstract interpretation (provenance), "
             "control dependence")
+
+
+def _handler_outcome(body, evar, code):
+    """What an `except OSError as <evar>` body does for errno `code`: 'skip'
+    (continue), 'raise' (bare re-raise), 'fall' (falls out of the handler) or
+    '?' - by evaluating its if-tests on `<evar>.errno == errno.<code>`."""
+    def ev(e):
+        if isinstance(e, ast.Attribute):
+            d = dotted(e)
+            if d == f"{evar}.errno":
+                return code
+            if d and d.startswith("errno."):
+                return d.split(".", 1)[1]
+            raise ValueError
+        if isinstance(e, ast.Constant):
+            return e.value
+        if isinstance(e, (ast.Tuple, ast.Set, ast.List)):
+            return [ev(x) for x in e.elts]
+        if isinstance(e, ast.UnaryOp) and isinstance(e.op, ast.Not):
+            return not ev(e.operand)
+        if isinstance(e, ast.BoolOp):
+            vals = [ev(v) for v in e.values]
+            return all(vals) if isinstance(e.op, ast.And) else any(vals)
+        if isinstance(e, ast.Compare) and len(e.ops) == 1:
+            l, r = ev(e.left), ev(e.comparators[0])
+            t = type(e.ops[0])
+            if t is ast.Eq:
+                return l == r
+            if t is ast.NotEq:
+                return l != r
+            if t is ast.In:
+                return l in r
+            if t is ast.NotIn:
+                return l not in r
+        raise ValueError
+
+    def run_(stmts):
+        for st in stmts:
+            if isinstance(st, ast.Continue):
+                return "skip"
+            if isinstance(st, ast.Raise):
+                return "raise" if st.exc is None else "raise-other"
+            if isinstance(st, (ast.Return, ast.Break)):
+                return "?"
+            if isinstance(st, ast.If):
+                try:
+                    v = ev(st.test)
+                except (ValueError, TypeError):
+                    return "?"
+                r = run_(st.body if v else st.orelse)
+                if r is not None:
+                    return r
+        return None
+    return run_(body) or "fall"
